@@ -110,9 +110,30 @@ class MatcherNF:
         dcls = I.facts.modules.get("gherkin.dialect").classes.get("Dialect") if I.facts.modules.get("gherkin.dialect") else None
         if dcls is not None:
             I.types[("attr", ("param", selfname), N.DIALECT)] = dcls
-            I.opaque_attrs[dcls.qualname] = lambda nm: nm.endswith("_keywords")
+            # ... those that hand out a list of the table as it is (``return self.spec["given"]``); a property computed
+            # from others (all step keywords in one list) is evaluated like any helper
+            I.opaque_attrs[dcls.qualname] = _table_properties(dcls).__contains__
         tree, rv, st = I.run(q)
         return tree, rv, st
+
+
+def _table_properties(dcls) -> set:
+    """Properties of Dialect that hand out the dialect's table entries: every property that is not computed from other
+    properties of the class (``step_keywords = given_keywords + when_keywords + ...`` is computed; ``given_keywords`` is not)."""
+    props = {name: fi for c in reversed(dcls.mro()) for name, fi in c.methods.items() if fi.is_property and fi.params()}
+    out = set()
+    for name, fi in props.items():
+        me = fi.params()[0]
+        derived = any(isinstance(x, ast.Attribute) and isinstance(x.value, ast.Name) and x.value.id == me and x.attr in props and x.attr != name
+                      for x in ast.walk(fi.node))
+        if not derived:
+            out.add(name)
+    # ... and properties made by a call in the class body (``feature_keywords = _keywords_property("feature")``)
+    for c in dcls.mro():
+        for name, val in c.class_attrs.items():
+            if isinstance(val, ast.Call) and name not in props:
+                out.add(name)
+    return out
 
 
 _MNF = {}
